@@ -30,10 +30,10 @@ Inductive rres := ROk (bs : list byte) | RBlock.
 
 (* one write(2) of [d] *)
 Definition pipe_write (p : pipe) (d : list byte) : pipe * wres :=
-  if rclosed p then (p, WErr E_BROKEN_PIPE) else
   match d with
-  | [] => (p, WOk 0)
+  | [] => (p, WOk 0)     (* a zero-length write returns 0 at once, even without readers *)
   | _ =>
+    if rclosed p then (p, WErr E_BROKEN_PIPE) else
     let k := Nat.min (length d) (pipe_free p) in
     if k =? 0 then (p, WBlock)
     else (pipe_with_q p (pq p ++ firstn k d), WOk k)
